@@ -22,7 +22,6 @@ def classify(case):
 
 SPEC = dict(
     prop="C16",
-    disabled="under construction",
     coq_targets=["props/C16.vo"],
     drivers=[
         dict(name="timer", kind="test", pkg="./timeutil", run="TestVerifC16",
